@@ -65,8 +65,8 @@ K_PROPS = {
     "C20": dict(assumptions=COMMON + [
                     "struct shapes A, B1, C, D in engine_k/k_cli/src/shapes.rs (bool with aliases, optional option, required/optional positional, required FromStr option, optional and required subcommand with a nested parser); the parsers are generated by /repo/tiny-cli at build time",
                     "reference parsers (ref_a/ref_b/ref_c in c20.rs) are written from the declared grammar; values are compared by argument identity",
-                    "core::fmt::write is replaced by 'any result, writes nothing' in the differential harnesses (message text is not the subject); it is real in the long-argument harness"],
-                outside=["argument vectors longer than 2-3 (3-4 in thorough) or arguments longer than 3 bytes, except the dedicated 140-byte harness and the cause-buffer harness",
+                    "core::fmt::write is replaced by 'any result, writes nothing' in the differential harnesses (message text is not the subject); the cause-buffer harness calls write_str directly"],
+                outside=["argument vectors longer than 2-3 (3-4 in thorough) or arguments longer than 3 bytes, except in the cause-buffer harness (chunks up to 300 bytes)",
                          "repeated options collected into a Vec (shape B2): the smallest instance exhausted 30-44 GB",
                          "the identity of ArgParseError.relevant_help (a &dyn Display to a zero-sized printer) is not compared",
                          "parse_cli_args (reads the real process arguments and exits)"]),
